@@ -30,6 +30,10 @@ Definition result_agrees (pm : list obj) (m o : jresult) : bool :=
   perm_b (err_entries (snd m)) (err_entries (snd o)) &&
   Bool.eqb (match snd m with None => true | _ => false end) (match snd o with None => true | _ => false end).
 
+Fixpoint nat_mem (x : nat) (l : list nat) : bool :=
+  match l with [] => false | y :: r => Nat.eqb x y || nat_mem x r end.
+Fixpoint nat_nodup (l : list nat) : bool :=
+  match l with [] => true | x :: r => negb (nat_mem x r) && nat_nodup r end.
 (* one call of Merge on the accumulator *)
 Inductive call := KResp (r : jresp) | KNil | KErr (e : ekind).
 
@@ -44,21 +48,33 @@ Inductive case :=
 (* the merging proxy: outcome of each backend, imposed arrival order (indices into outs),
    how the proxy was built (0 = NewMergeDataMiddleware, 1 = DefaultFactory), observed *)
 | CMerge (via : nat) (outs : list jout) (order : list nat) (o : jresult)
+(* the merging proxy when payloads race with the cancellation (the select of requestPart):
+   what every backend RETURNED, the backends whose payload was dropped for the context error
+   (read off the response: private marker fields), the flavour of the context error *)
+| CRace (via : nat) (outs : list jout) (dropped : list nat) (deadline : bool) (order : list nat) (o : jresult)
 (* the accumulator alone: total, the Merge calls, observed Result() *)
 | CAcc (total : Z) (calls : list call) (o : jresult)
 (* combineData alone: total, parts (None = nil pointer), observed response *)
 | CCombine (total : Z) (parts : list (option jresp)) (o : jresp).
 
-Fixpoint nat_mem (x : nat) (l : list nat) : bool :=
-  match l with [] => false | y :: r => Nat.eqb x y || nat_mem x r end.
-Fixpoint nat_nodup (l : list nat) : bool :=
-  match l with [] => true | x :: r => negb (nat_mem x r) && nat_nodup r end.
 (* order is a permutation of 0..n-1 *)
 Definition is_order (n : nat) (order : list nat) : bool :=
   Nat.eqb (List.length order) n && nat_nodup order && forallb (fun i => Nat.ltb i n) order.
 
+(* the message of backend i: requestPart applied to what the backend returned *)
 Definition arrivals_of (outs : list jout) (order : list nat) : list (msg json) :=
-  map (fun i => msg_of (nth i outs OEmpty)) order.
+  map (fun i => request_part (return_of (nth i outs OEmpty)) None) order.
+
+(* backends whose payload lost the select of requestPart against the cancellation *)
+Definition choice_of (dropped : list nat) (dl : bool) (i : nat) : option ekind :=
+  if nat_mem i dropped then Some (ctx_err dl) else None.
+Fixpoint effs_from (i : nat) (outs : list jout) (dropped : list nat) (dl : bool) : list jout :=
+  match outs with
+  | [] => []
+  | o :: r => effective o (choice_of dropped dl i) :: effs_from (S i) r dropped dl
+  end.
+Definition race_arrivals (outs : list jout) (dropped : list nat) (dl : bool) (order : list nat) : list (msg json) :=
+  map (fun i => request_part (return_of (nth i outs OEmpty)) (choice_of dropped dl i)) order.
 
 Definition call_maps (cs : list call) : list obj :=
   flat_map (fun c => match c with KResp r => match data r with Some d => [d] | None => [] end | _ => [] end) cs.
@@ -75,6 +91,13 @@ Definition check_case (c : case) : bool * bool :=
       (is_order n order && Nat.leb 2 n &&
        result_agrees (payload_maps outs) (merge_run n (arrivals_of outs order)) o,
        spec_b json_eqb outs o)
+  | CRace _ outs dropped dl order o =>
+      let n := List.length outs in
+      let effs := effs_from 0 outs dropped dl in
+      (is_order n order && Nat.leb 2 n &&
+       forallb (fun i => is_payload (nth i outs OEmpty)) dropped &&
+       result_agrees (payload_maps effs) (merge_run n (race_arrivals outs dropped dl order)) o,
+       spec_b json_eqb effs o)
   | CAcc total calls o =>
       (result_agrees (call_maps calls) (acc_result (fold_left apply_call calls (acc_init total))) o,
        (* when the calls are a whole parallel merge the property applies to them too *)
